@@ -154,6 +154,7 @@ def _plan(tier):
         P.append(("trial", dict(driver="Canonical", table="d", n=3, check=True, calc="neighbourlist"), R + ("failed",)))
         P.append(("trial", dict(driver="HamiltonianCanonical", table="h", n=1, check=True, calc="caching"), R + ("failed",)))
         P.append(("trial", dict(driver="Isotension", table="cell", n=2, check=True, calc="neighbourlist"), R + ("failed",)))
+    P.append(("trial", dict(driver="Canonical", table="d", n=2, check=False, calc="caching"), (), "one-evaluation-per-judged-trial"))
     return P
 
 
